@@ -64,6 +64,11 @@ def instrument(func, cuts=(), rewrite_asserts=True):
     fdef.decorator_list = []
     for anchor, cut_id, names, extra in cuts:
         best = None
+        want = None
+        if "#" in anchor:
+            anchor, want = anchor.split("#")
+            want = int(want)
+        cands = []
         for node in ast.walk(tree):
             for attr in ("body", "orelse", "finalbody"):
                 bl = getattr(node, attr, None)
@@ -76,8 +81,10 @@ def instrument(func, cuts=(), rewrite_asserts=True):
                     elif isinstance(st, ast.AugAssign):
                         tg = st.target
                     if isinstance(tg, ast.Name) and tg.id == anchor:
-                        if best is None or st.lineno > best[2]:
-                            best = (bl, i, st.lineno, st)
+                        cands.append((bl, i, st.lineno, st))
+        cands.sort(key=lambda c: c[2])
+        if cands:
+            best = cands[-1] if want is None else (cands[want] if want < len(cands) else None)
         if best is None:
             UNBOUND.append((func.__qualname__, anchor, cut_id))
             continue
@@ -100,14 +107,16 @@ def instrument(func, cuts=(), rewrite_asserts=True):
             INSERTED.append({"function": func.__qualname__, "rewritten": f"{n_asserts} assert statement(s) -> __assert__(test)"})
     ast.fix_missing_locations(tree)
     ast.increment_lineno(tree, func.__code__.co_firstlineno - 1)
-    ns = dict(func.__globals__)
-    ns["__cut__"] = _cut_hook
-    ns["__assert__"] = _assert_hook
     code = compile(tree, func.__code__.co_filename, "exec")
     if func.__closure__:
         raise Unsupported("instrumenting a closure")
-    exec(code, ns)
-    new = ns[func.__name__]
+    # the instrumented function runs in the module's own (live) globals; only the two hook names are added to them
+    g = func.__globals__
+    g["__cut__"] = _cut_hook
+    g["__assert__"] = _assert_hook
+    fcode = next(c for c in code.co_consts if isinstance(c, type(code)) and c.co_name == func.__name__)
+    import types
+    new = types.FunctionType(fcode, g, func.__name__, func.__defaults__, None)
     new.__qualname__ = func.__qualname__
     new.__defaults__ = func.__defaults__
     new.__kwdefaults__ = func.__kwdefaults__
